@@ -73,6 +73,45 @@ def run(ctx):
     mm.tinv(ctx, "min", 20000 if ctx.thorough() else 6000)
     c = cli_runs(ctx)
     vlib.validate_trace(ctx, "MinOutTrace", c, "CLI min -p s2m|m2s, m 7..28", "reset")
+    # listings into a pipe that is drained slowly (the pipe is full while several workers want to write; lines longer than the
+    # pipe buffer): the same set of lines as into a file
+    import hashlib, subprocess, time
+    cli = vlib.build_cli()
+    pin = ctx.path("pipe.fa")
+    vlib.kvh(["gen", "fasta", ctx.seed + 3, 60, 30000, pin, "clean"])
+    evs = []
+    for mode in ("s2m", "m2s"):
+        ref = ctx.path("pipe_ref.txt")
+        vlib.sh([cli, "min", "-i", pin, "-o", ref, "-m", "7", "-w", "9", "-p", mode, "-t", "1"], timeout=600)
+        norm = (lambda d: b"\n".join(sorted(d.split(b"\n")))) if mode == "s2m" else (lambda d: b"\n".join(sorted(
+            ln.split(b"\t", 1)[0] + b"\t" + b",".join(sorted(re.findall(rb"\([^)]*\)", ln))) for ln in d.split(b"\n"))))
+        a = hashlib.sha256(norm(open(ref, "rb").read())).hexdigest()[:16]
+        for rep in range(3 if ctx.thorough() else 2):
+            ff = ctx.path("out_fifo")
+            if os.path.exists(ff):
+                os.remove(ff)
+            os.mkfifo(ff)
+            pr = subprocess.Popen([cli, "min", "-i", pin, "-o", ff, "-m", "7", "-w", "9", "-p", mode, "-t", "8"], stdout=subprocess.DEVNULL, stderr=subprocess.DEVNULL)
+            chunks = []
+            with open(ff, "rb") as f:
+                while True:
+                    b = f.read(4096)
+                    if not b:
+                        break
+                    chunks.append(b)
+                    if len(chunks) % 64 == 0:
+                        time.sleep(0.002)
+            rc = pr.wait(timeout=600)
+            os.remove(ff)
+            b = hashlib.sha256(norm(b"".join(chunks))).hexdigest()[:16] if rc == 0 else "exit %d" % rc
+            evs.append({"ev": "eq", "what": "min -p %s into a slowly drained pipe, 8 threads (run %d) = into a file" % (mode, rep), "a": a, "b": b})
+        os.remove(ref)
+    pe = ctx.path("pipe.ndjson")
+    with open(pe, "w") as f:
+        for e in evs:
+            f.write(json.dumps(e) + "\n")
+        f.write('{"ev":"eof"}\n')
+    vlib.validate_trace(ctx, "FactsTrace", pe, "listings into a slowly drained pipe = into a file", "eq")
     many = ctx.path("many.ndjson")
     vlib.kvh(["trace", "many", ctx.seed, ctx.rundir, 70000, "min"], out=many)
     vlib.validate_trace(ctx, "FactsTrace", many, "70 000 records from a pool of 12: every s2m line / every m2s region judged (ordinals beyond 2^16, 10 000-record branches)", "manymin")
